@@ -211,15 +211,39 @@ func c26(r *core.Run) {
 		func(y ssa.Value) bool { k, ok := core.ConstInt(y); return ok && k == avail }, "==")
 	// G1: sequence.Inc only when available
 	nInc := 0
-	for _, cl := range core.Closures(newFn) {
-		for _, c := range core.Calls(cl, "(*go.uber.org/atomic.Uint64).Inc") {
-			nInc++
-			r.Saw(core.FuncName(cl))
-			r.Eval(core.EdgeCount(cl))
-			good, _ := core.AtomEdges(cl, availAtom)
-			r.Check("C26.G1", core.Key("C26.G1", newFn, "clock tick behind network available"), c.Pos(), len(good) > 0 && core.OnlyBehind(cl, c, good),
-				"the flag-timeout clock advances only while the network is available", "the sequencer advances without the NetworkStatus()==Available check")
-		}
+	for _, fn := range w.PkgFuncs("pkg/blocker") {
+		core.EachInstr(fn, func(_ *ssa.BasicBlock, _ int, in ssa.Instruction) {
+			c, ok := in.(*ssa.Call)
+			if !ok || len(c.Call.Args) == 0 || !core.IsFieldOf(c.Call.Args[0], B, "sequence") {
+				return
+			}
+			name := core.CalleeName(&c.Call)
+			const pre = "(*go.uber.org/atomic.Uint64)."
+			if !strings.HasPrefix(name, pre) {
+				return
+			}
+			switch m := strings.TrimPrefix(name, pre); m {
+			case "Load", "String":
+				return
+			case "Inc", "Add":
+				nInc++
+				r.Saw(core.FuncName(fn))
+				r.Eval(core.EdgeCount(fn))
+				good, _ := core.AtomEdges(fn, availAtom)
+				r.Check("C26.G1", lsKey("C26.G1", fn, "clock tick behind network available"), c.Pos(), len(good) > 0 && core.OnlyBehind(fn, c, good),
+					"the flag-timeout clock advances only while the network is available", "the sequencer advances without the NetworkStatus()==Available check")
+				okStep := m == "Inc"
+				if m == "Add" {
+					k, isC := core.ConstInt(c.Call.Args[1])
+					okStep = isC && k == 1
+				}
+				r.Check("C26.G1", lsKey("C26.G1", fn, "clock advances one tick per available period"), c.Pos(), okStep,
+					"each available tick advances the clock by exactly one", "the clock is advanced by a computed amount (for instance elapsed wall time): time during which the network was unavailable can be added to the flag timeout clock")
+			default:
+				r.Check("C26.G1", lsKey("C26.G1", fn, "clock written by "+m), c.Pos(), false,
+					"the clock is only incremented", "the sequencer is modified by "+m)
+			}
+		})
 	}
 	r.Floor("C26.G1", "sequencer increments", nInc, 1)
 
